@@ -145,7 +145,7 @@ def run(ctx):
     # the per-constant tables are built once per process (init): under processor counts that do not divide 65536 too - the top
     # constants on every path, in processes started with GOMAXPROCS = 3, 7 and 12
     import os as _os1
-    topc = ["c09 kern %s %d %d 70 rand %d 8" % (pth_, acc_, c_, rng.randrange(1 << 30)) for pth_ in ("disp0", "portable", "disp1") for acc_ in (0, 1)
+    topc = ["c09 kern %s %d %d 70 rand %d 8" % (pth_, acc_, c_, ctx.rng.randrange(1 << 30)) for pth_ in ("disp0", "portable", "disp1") for acc_ in (0, 1)
             for c_ in (65535, 65534, 65533, 65532, 65531, 65530, 65528, 65521, 43691, 21846)]
     topm = ctx.run_lines(model, topc)
     for gmp in ("3", "7", "12"):
